@@ -186,8 +186,17 @@ Encode(bheap, roots, f) ==
     IN EncodeRaw(bheap, roots, f, MasksOf(heap), IF f.wh THEN C!InfoAll(heap) ELSE <<>>)
 \* which freedoms are admissible for a bag
 TotSize(bheap, f) == SumSeq([k \in 1..Len(bheap) |-> 2 + (IF f.wh THEN 34 * 4 ELSE 0) + Len(bheap[k].y) + Len(bheap[k].r) * f.size])
+\* exact size of the cell data (stored hashes are counted by the level mask, no hashing needed)
+ExactTot(bheap, f) ==
+    LET N == Len(bheap)
+        masks == MasksOf(Flip(bheap))
+        nlv(k) == LET m == masks[N + 1 - k].mask IN Cardinality({l \in 0..3 : l <= C!Lvl(m) /\ C!IsSig(m, l)})
+    IN SumSeq([k \in 1..N |-> 2 + (IF f.wh THEN 34 * nlv(k) ELSE 0) + Len(C!Data(bheap[k])) + Len(bheap[k].r) * f.size])
+FitsOff(v, offb) == offb >= 4 \/ v < 256 ^ offb
 FreedomOk(bheap, roots, f) ==
     /\ f.size \in 1..4 /\ f.offb \in 1..8
+    \* "offset widths are sufficient": the total size, and every index entry (doubled when cache bits are on), fits off_bytes
+    /\ FitsOff(ExactTot(bheap, f), f.offb) /\ ((f.idx /\ f.cache) => FitsOff(2 * ExactTot(bheap, f), f.offb))
     /\ f.size >= MinBytes(Len(bheap))
     /\ f.cache => f.idx
     /\ f.magic # "generic" => (f.idx /\ ~f.cache /\ roots = <<1>> /\ (f.crc <=> f.magic = "idxcrc"))
